@@ -25,6 +25,7 @@ mod c18;
 mod c19;
 mod c20;
 mod alloc;
+mod asciix;
 
 #[global_allocator]
 static GLOBAL: alloc::Counting = alloc::Counting;
